@@ -202,31 +202,73 @@ class C13(Prop):
     # ---- the session-level bound: a real RPCSession serving more requests than its limit
     @staticmethod
     def session_workload(case):
+        """requests (RPCSession) or messages (MessageSession) arriving on a real session whose handlers finish when
+        the scenario says so; the limit is changed directly and through the session's cost, time advances"""
         import asyncio, json
         from harness import sessions
-        from aiorpcx import RPCSession
+        from aiorpcx import RPCSession, MessageSession, framing
+        from aiorpcx.session import Concurrency
         loop = sessions.new_loop()
         try:
             gates, running, peak, order, done = {}, set(), [0], [], []
+            arrival, asked, admitted = {}, [], []
+            msg = case.get('session') == 'message'
 
-            class Srv(RPCSession):
+            holding, unheld = set(), []
+
+            async def handle(k):
+                if k not in holding:
+                    unheld.append(k)
+                running.add(k)
+                order.append(k)
+                peak[0] = max(peak[0], len(running))
+                try:
+                    await gates[k]
+                finally:
+                    running.discard(k)
+                    done.append(k)
+                return k
+
+            class RSrv(RPCSession):
                 processing_timeout = 10 ** 6
                 cost_decay_per_sec = 0
 
                 async def handle_request(self, request):
-                    k = request.args[0]
-                    running.add(k)
-                    order.append(k)
-                    peak[0] = max(peak[0], len(running))
-                    try:
-                        await gates[k]
-                    finally:
-                        running.discard(k)
-                        done.append(k)
-                    return k
+                    return await handle(request.args[0])
+
+                async def _throttled_request(self, request):
+                    arrival[asyncio.current_task()] = request.args[0]
+                    return await super()._throttled_request(request)
+
+            class MSrv(MessageSession):
+                processing_timeout = 10 ** 6
+                cost_decay_per_sec = 0
+
+                async def handle_message(self, message):
+                    return await handle(int(message[1]))
+
+                async def _throttled_message(self, message):
+                    arrival[asyncio.current_task()] = int(message[1])
+                    return await super()._throttled_message(message)
+
+            class Watch(Concurrency):
+                # the limiter guarding the handlers: who asks for a permit and who gets one, in order
+                async def __aenter__(self_):
+                    k = arrival.get(asyncio.current_task())
+                    asked.append(k)
+                    r = await Concurrency.__aenter__(self_)
+                    admitted.append(k)
+                    holding.add(k)
+                    return r
+
+                async def __aexit__(self_, *exc):
+                    holding.discard(arrival.get(asyncio.current_task()))
+                    return await Concurrency.__aexit__(self_, *exc)
 
             async def main():
-                proto, ft, s = sessions.attach(Srv, 'server', case['transport'])
+                proto, ft, s = sessions.attach(MSrv if msg else RSrv, 'server', case['transport'])
+                s._incoming_concurrency.__class__ = Watch
+                fr = framing.BitcoinFramer()
                 n = case['n']
                 viol = []
                 for k in range(n):
@@ -234,15 +276,19 @@ class C13(Prop):
                 sent = 0
                 limit0 = s._incoming_concurrency.max_concurrent
                 largest = limit0
+                costed = False
                 for step in case['steps']:
                     if step[0] == 'arrive':
                         for _ in range(step[1]):
                             if sent < n:
-                                kind = 'notification' if (sent % 7 == 3) else 'request'
-                                d = {'jsonrpc': '2.0', 'method': 'work', 'params': [sent]}
-                                if kind == 'request':
-                                    d['id'] = sent
-                                proto.data_received(json.dumps(d).encode() + b'\n')
+                                if msg:
+                                    proto.data_received(fr.frame((b'work', b'%d' % sent)))
+                                else:
+                                    kind = 'notification' if (sent % 7 == 3) else 'request'
+                                    d = {'jsonrpc': '2.0', 'method': 'work', 'params': [sent]}
+                                    if kind == 'request':
+                                        d['id'] = sent
+                                    proto.data_received(json.dumps(d).encode() + b'\n')
                                 sent += 1
                     elif step[0] == 'finish':
                         live = sorted(running)
@@ -252,8 +298,15 @@ class C13(Prop):
                     elif step[0] == 'limit':
                         s._incoming_concurrency.set_target(step[1])
                         largest = max(largest, step[1])
+                    elif step[0] == 'cost':
+                        # the session's cost moves (charged by the application, refunded): delay and limit follow
+                        s.cost = step[1]
+                        s.recalc_concurrency()
+                        costed = True
+                    elif step[0] == 'advance':
+                        await asyncio.sleep(step[1])
                     await sessions.settle(8)
-                    cur = s._incoming_concurrency.max_concurrent
+                    largest = max(largest, s._incoming_concurrency.max_concurrent)
                     if len(running) > largest:
                         viol.append(f'{len(running)} handlers run at once, the largest limit in force was {largest}')
                     unanswered = s.unanswered_request_count()
@@ -264,14 +317,23 @@ class C13(Prop):
                     for k in sorted(running):
                         if not gates[k].done():
                             gates[k].set_result(None)
+                    if costed:
+                        await asyncio.sleep(3)
                     await sessions.settle(8)
                     if len(done) == sent:
                         break
                 if len(done) != sent:
                     viol.append(f'only {len(done)} of {sent} requests were ever served')
-                if order != sorted(order):
+                if order != sorted(order) and not costed:
                     viol.append('requests were not admitted in arrival order')
-                return {'viol': viol[:3], 'peak': peak[0], 'limit0': limit0, 'sent': sent}
+                if None in asked or sorted(asked) != list(range(sent)):
+                    viol.append('a handler ran without asking the session\'s limiter for a permit')
+                elif admitted != sorted(admitted) or asked != sorted(asked):
+                    viol.append(f'requests beyond the limit do not wait in arrival order: permits asked in order {asked[:12]}..., '
+                                f'granted in order {admitted[:12]}...')
+                elif unheld:
+                    viol.append(f'the handlers of requests {unheld[:8]} started while their requests held no permit')
+                return {'viol': viol[:3], 'peak': peak[0], 'limit0': limit0, 'sent': sent, 'costed': costed}
             return loop.run_until_complete(main())
         finally:
             sessions.close_loop(loop)
@@ -282,21 +344,32 @@ class C13(Prop):
         out = []
         n = 40 if ctx['tier'] == 'quick' else 600
         peaks = []
-        for _ in range(n):
+        directed = [{'session_workload': True, 'n': 40, 'session': k, 'transport': tr,
+                     'steps': [['cost', 6000], ['arrive', 30], ['cost', 2400], ['arrive', 5], ['advance', 2.5], ['finish', 40]]}
+                    for k, tr in (('rpc', 'rs'), ('message', 'us'))]
+        for i in range(n):
             steps = []
             for _ in range(rng.randrange(4, 14)):
                 r = rng.random()
                 steps.append(['arrive', rng.choice([1, 5, 30, 70])] if r < 0.5 else
                              ['finish', rng.choice([1, 3, 10, 40])] if r < 0.85 else ['limit', rng.choice([3, 8, 20, 30])])
+            if rng.random() < 0.4:
+                # the cost of the session moves between arrivals and time passes: delays differ from request to request
+                for _ in range(rng.randrange(2, 6)):
+                    at = rng.randrange(len(steps) + 1)
+                    steps[at:at] = [['cost', rng.choice([0, 2400, 3000, 4000, 6000, 8000])], ['arrive', rng.choice([1, 2, 30])],
+                                    ['advance', rng.choice([0.05, 0.3, 1.0, 2.5])]]
             case = {'session_workload': True, 'n': rng.choice([30, 80, 150]), 'steps': steps,
-                    'transport': rng.choice(['rs', 'us'])}
+                    'session': rng.choice(['rpc', 'rpc', 'message']), 'transport': rng.choice(['rs', 'us'])}
+            if i < len(directed):
+                case = directed[i]
             obs = self.session_workload(case)
             peaks.append(obs['peak'])
             if obs['viol']:
                 out.append(Failure(case, obs, 'session level: ' + obs['viol'][0]))
                 if len(out) >= 3:
                     break
-        ctx['notes'].append(f'session-level workloads on a real RPCSession: {n}, peak concurrent handlers max {max(peaks)} '
+        ctx['notes'].append(f'session-level workloads on a real RPCSession / MessageSession (cost moving in about 40%): {n}, peak concurrent handlers max {max(peaks)} '
                             f'(reaching the limit in {sum(1 for p in peaks if p >= 20)} of them)')
         return out
 
